@@ -38,6 +38,10 @@ async fn verif_dir_witness() {
     // a sibling that is neither a regular file nor a directory (a character device behind a symlink): "not a directory", so it is substituted
     std::fs::write(gzb.join("chardev"), b"P:chardev").unwrap();
     std::os::unix::fs::symlink("/dev/null", gzb.join("chardev.gz")).unwrap();
+    // a sibling that exists but cannot be opened (a symlink onto itself: ELOOP): it is there and not a directory, so the
+    // answer is the way opening it fails, not the plain file
+    std::fs::write(gzb.join("loop"), b"P:loop").unwrap();
+    std::os::unix::fs::symlink("loop.gz", gzb.join("loop.gz")).unwrap();
     let gz_on = http_serve::dir::FsDir::builder().for_path(&gzb).unwrap();
     let gz_off = http_serve::dir::FsDir::builder().auto_gzip(false).for_path(&gzb).unwrap();
     let text = std::fs::read_to_string(inp).unwrap();
